@@ -425,3 +425,23 @@ Proof.
   exists (fun _ _ => -17762), (mkG (-5364644638) 0 (LZone 1%N)).
   vm_compute. discriminate.
 Qed.
+
+(* ---- through a schema: a strict member given unparsable input fails the record -------------- *)
+Lemma strict_error_fails_record ms1 ms2 :
+  record_outcome (ms1 ++ (false, RError) :: ms2) = None.
+Proof.
+  induction ms1 as [|[ig r] ms1 IH]; simpl.
+  - reflexivity.
+  - rewrite IH. destruct (member_outcome ig r); reflexivity.
+Qed.
+
+Lemma record_outcome_some ms :
+  (forall ig r, In (ig, r) ms -> ig = true \/ r <> RError) ->
+  record_outcome ms = Some (map (fun m => match snd m with RVal _ => true | _ => false end) ms).
+Proof.
+  induction ms as [|[ig r] ms IH]; intro H; simpl; [reflexivity|].
+  rewrite IH by (intros ig' r' Hin; apply (H ig' r'); right; exact Hin).
+  destruct (H ig r (or_introl eq_refl)) as [-> | Hr]; destruct r as [[]| |]; try reflexivity.
+  contradiction.
+Qed.
+
